@@ -52,6 +52,24 @@ def _string_parts(fn: ast.AST) -> Tuple[List[str], List[str]]:
             if isinstance(p, ast.Compare):
                 continue
             lits.append(n.value)
+    # a printf-style number format may be built apart from the place where it is applied (fmt = f"%.{d}E"; fmt % x):
+    # classify by content — "%", optional flags/precision, conversion letter, possibly split by an f-string hole
+    import re as _re
+    moved = []
+    for js in [n for n in walk_ordered(fn) if isinstance(n, ast.JoinedStr)]:
+        text = "".join(str(v.value) if isinstance(v, ast.Constant) else "0" for v in js.values)
+        if _re.search(r"%[-+ #0]*\d*(?:\.\d*)?[eEfFgG]", text):
+            for v in js.values:
+                if isinstance(v, ast.Constant) and isinstance(v.value, str) and v.value in lits and id(v) not in fmt_nodes:
+                    moved.append(v.value)
+    for n in walk_ordered(fn):
+        if isinstance(n, ast.Constant) and isinstance(n.value, str) and id(n) not in fmt_nodes and not isinstance(parent(n), ast.JoinedStr) \
+                and _re.fullmatch(r"[^%]*%[-+ #0]*\d*(?:\.\d*)?[eEfFgG][^%]*", n.value) and n.value in lits:
+            moved.append(n.value)
+    for m_ in moved:
+        if m_ in lits:
+            lits.remove(m_)
+            fmts.append(m_)
     return lits, fmts
 
 
@@ -67,14 +85,43 @@ def check(ctx: Ctx) -> None:
     ctx.rule("R3.7", "orientation typestate of lists built from the LIFO parser stack: the list handed to Series/Parallel is forward")
 
     # ---------------- R3.1 ------------------------------------------------------------
-    tk_init = model.fi(TOK, "Tokenizer.__init__")
+    # the table of single-character tokens: the mapping the main loop pushes from (`if char in T: … self.push(T[char])`),
+    # wherever it is defined (instance attribute set in __init__, class attribute or module constant)
+    tm0 = model.fi(TOK, "Tokenizer.main_loop")
     special = None
-    for n in walk_ordered(tk_init.node):
-        if isinstance(n, (ast.Assign, ast.AnnAssign)) and norm(n.targets[0] if isinstance(n, ast.Assign) else n.target) == "self._special_characters":
-            if isinstance(n.value, ast.Dict):
-                special = {k.value: norm(v) for k, v in zip(n.value.keys, n.value.values) if isinstance(k, ast.Constant)}
+    tname = None
+    for n in walk_ordered(tm0.node):
+        if isinstance(n, ast.If) and isinstance(n.test, ast.Compare) and isinstance(n.test.ops[0], ast.In) and norm(n.test.left) == "char":
+            T = norm(n.test.comparators[0])
+            if any(isinstance(c.func, ast.Attribute) and c.func.attr == "push" and c.args and norm(c.args[0]) == f"{T}[char]" for st_ in n.body for c in calls_in(st_)):
+                tname = T
+                break
+    if tname is None:
+        raise AnalysisError("Tokenizer.main_loop: the single-character token table (`if char in T: … self.push(T[char])`) was not found")
+    cands = []
+    if tname.startswith("self."):
+        attr = tname[5:]
+        for q_, f_ in model.funcs.items():
+            if f_.module == TOK and q_.split(":")[1].startswith("Tokenizer."):
+                for n in walk_ordered(f_.node):
+                    if isinstance(n, (ast.Assign, ast.AnnAssign)) and n.value is not None and norm(n.targets[0] if isinstance(n, ast.Assign) else n.target) == tname:
+                        cands.append(n.value)
+        for cls in [c for c in ctx.repo.modules[TOK].tree.body if isinstance(c, ast.ClassDef) and c.name == "Tokenizer"]:
+            for n in cls.body:
+                if isinstance(n, (ast.Assign, ast.AnnAssign)) and n.value is not None and norm(n.targets[0] if isinstance(n, ast.Assign) else n.target) == attr:
+                    cands.append(n.value)
+    else:
+        from ..elements import module_consts
+        mc = module_consts(ctx.repo, TOK)
+        if tname in mc:
+            cands.append(mc[tname])
+    if len(cands) == 1 and isinstance(cands[0], ast.Name):
+        from ..elements import module_consts
+        cands = [module_consts(ctx.repo, TOK).get(cands[0].id)]
+    if len(cands) == 1 and isinstance(cands[0], ast.Dict):
+        special = {k.value: norm(v) for k, v in zip(cands[0].keys, cands[0].values) if isinstance(k, ast.Constant)}
     if not special or len(special) < 10:
-        raise AnalysisError("Tokenizer._special_characters table not found")
+        raise AnalysisError(f"Tokenizer: single-character token table {tname} not found as one dictionary display")
     # consumers of words
     parser_words: Set[str] = set()
     for q, fi in model.funcs.items():
@@ -163,30 +210,35 @@ def check(ctx: Ctx) -> None:
 
     # ---------------- R3.2 ------------------------------------------------------------
     ts = model.fi(BASE, "Element.to_string")
-    loop = next((n for n in walk_ordered(ts.node) if isinstance(n, ast.For) and "get_values" in norm(n.iter)), None)
-    if loop is None:
-        raise AnalysisError("Element.to_string: parameter loop not found")
-    order: List[str] = []
-    for n in walk_ordered(loop):
-        if isinstance(n, (ast.AugAssign, ast.AnnAssign, ast.Assign)):
-            tgt = n.target if not isinstance(n, ast.Assign) else n.targets[0]
-            if norm(tgt) != "string" or n.value is None:
-                continue
-            v = norm(n.value)
-            if "symbol" in v and "value" in v:
-                order.append("value")
-            elif v in ("'F'",):
-                order.append("F")
-            elif "lower" in v or (order and order[-1] in ("F", "value") and "inf" in v):
-                order.append("lower")
-            elif "upper" in v or "inf" in v:
-                order.append("upper")
-    dedup = [x for i, x in enumerate(order) if i == 0 or order[i - 1] != x]
-    ctx.instance("R3.2", f"Element.to_string field order {dedup}")
-    if dedup == ["value", "F", "lower", "upper"]:
+    from ..strabs import StrAbs
+    sab = StrAbs(ts.node)
+    sab.run()
+    entries = None
+    for lst, av in sab.appended.items():
+        if any(any(p[0] == "num" for p in alt) for alt in av):
+            entries = av
+    if not entries:
+        raise AnalysisError("Element.to_string: no list of formatted parameter entries found by the string abstraction")
+
+    def canon(alt) -> str:
+        out = ""
+        for p in alt:
+            if p[0] == "lit":
+                out += p[1]
+            elif p[0] == "num":
+                out += "<L>" if "lower" in p[1] else ("<U>" if "upper" in p[1] else "<V>")
+            else:
+                out += "<K>"
+        return out
+    got = sorted({canon(a) for a in entries})
+    want = sorted(f"<K>=<V>{F}/{lo}/{up}" for F in ("", "F") for lo in ("<L>", "inf") for up in ("<U>", "inf"))
+    ctx.instance("R3.2", f"Element.to_string parameter entry shapes {got}")
+    loop = ts.node
+    if got == want:
         ctx.ok()
     else:
-        ctx.violation("R3.2", "Element.to_string:field-order", BASE, loop, f"emitter writes fields in order {dedup}, expected value, F, lower, upper")
+        ctx.violation("R3.2", "Element.to_string:field-order", BASE, loop,
+                      f"a parameter is emitted as one of {got}; the parser reads key=value[F]/lower/upper with 'inf' for an absent limit, i.e. {want}")
     pp = model.fi(PARSER, "Parser.param")
     pl_calls = [(n, norm(parent(n).targets[0]) if isinstance(parent(n), ast.Assign) else "?")
                 for n in walk_ordered(pp.node) if isinstance(n, ast.Call) and dotted(n.func) == "self.param_limit"]
@@ -329,8 +381,9 @@ def check(ctx: Ctx) -> None:
     for s in nums:
         if s.arg == "-inf":
             ctx.instance("R3.4", "widening dictionary ranges over the given lower limits")
-            t = norm(s.node)
-            if "lower_limits" in t and "isnan" in t:
+            from ..prov import dict_arg
+            das = [dict_arg(k.value, el.node) for k in s.node.keywords if k.arg is None] if isinstance(s.node, ast.Call) else []
+            if any(d is not None and d[0] == "lower_limits" and d[1] == "-inf" and d[2] == ["not isnan(v)"] for d in das):
                 ctx.ok()
             else:
                 ctx.violation("R3.4", "Parser.element:widening-range", PARSER, s.node,
@@ -427,7 +480,8 @@ def _labels(ctx: Ctx, model) -> None:
     tm = model.fi(TOK, "Tokenizer.main_loop")
     # which first characters reach identifier_or_label (where Labels are produced)?
     lex_first: Set[str] = set()
-    names = {"ascii_letters": string.ascii_letters, "digits": string.digits, "ascii_lowercase": string.ascii_lowercase,
+    from ..elements import module_consts
+    names = {**module_consts(ctx.repo, TOK), "ascii_letters": string.ascii_letters, "digits": string.digits, "ascii_lowercase": string.ascii_lowercase,
              "ascii_uppercase": string.ascii_uppercase, "whitespace": string.whitespace}
     label_anywhere = False
     for n in walk_ordered(tm.node):
@@ -501,23 +555,25 @@ def _state_carried(ctx: Ctx, model) -> None:
                 calls.append(c)
         ok = False
         why = "not passed on"
+        from ..prov import dict_arg
         for c in calls:
             for k in c.keywords:
-                if k.arg is None and isinstance(k.value, ast.Name) and k.value.id == nm and form in ("star", "nan-filter"):
+                if k.arg is not None:
+                    continue
+                da = dict_arg(k.value, el.node)
+                if da is None:
+                    if nm in norm(k.value):
+                        why = f"passed as {norm(k.value)[:60]}, which is not understood"
+                    continue
+                src, val, filt = da
+                if src != nm:
+                    continue
+                if val != "same":
+                    continue  # e.g. the widening call with -inf: not the hand-over
+                if not filt or (form == "nan-filter" and filt == ["not isnan(v)"]):
                     ok = True
-                if k.arg is None and isinstance(k.value, ast.DictComp) and nm in norm(k.value):
-                    dc = k.value
-                    g = dc.generators[0]
-                    kv = [e.id for e in g.target.elts] if isinstance(g.target, ast.Tuple) else []
-                    if norm(g.iter) == f"{nm}.items()" and len(kv) == 2 and norm(dc.key) == kv[0]:
-                        filt = [norm(i) for i in g.ifs]
-                        val = norm(dc.value)
-                        if form == "nan-filter" and filt in ([f"not isnan({kv[1]})"],) and (val == kv[1] or val in ("-inf", "inf")):
-                            ok = ok or val == kv[1]
-                        elif filt:
-                            why = f"filtered by {filt}"
-                        elif val == kv[1]:
-                            ok = True
+                else:
+                    why = f"filtered by {filt}"
             for a in c.args:
                 if form == "plain" and isinstance(a, ast.Name) and a.id == nm:
                     ok = True
